@@ -203,7 +203,35 @@ pub fn fatal_open_file(path: &Path) -> (r: Result<File, Failed>)
     ensures
         r matches Ok(f) ==> f.pos() == 0 && disk(*path) == Some(f.content()) && status_state(f.content()),
 { unimplemented!() }
+#[derive(Structural, PartialEq, Eq)]
+pub enum ErrorKind { NotFound, AlreadyExists, PermissionDenied, UnexpectedEof, Interrupted, Other }
+impl IoError {
+    pub uninterp spec fn kind_spec(&self) -> ErrorKind;
+    #[verifier::external_body]
+    pub fn kind(&self) -> (r: ErrorKind) ensures r == self.kind_spec() { unimplemented!() }
+}
 impl File {
+    // std::fs::File constructors used directly (same steps as the utils::fatal wrappers)
+    #[verifier::external_body]
+    pub fn create(path: &Path) -> (r: Result<File, IoError>)
+        requires status_state(Seq::<u8>::empty()),
+        ensures r matches Ok(f) ==> f.content() == Seq::<u8>::empty() && f.pos() == 0,
+    { unimplemented!() }
+    // fails when the file exists - which it does after the first completed run: not an I/O failure
+    #[verifier::external_body]
+    pub fn create_new(path: &Path) -> (r: Result<File, IoError>)
+        requires status_state(Seq::<u8>::empty()),
+        ensures
+            r matches Ok(f) ==> f.content() == Seq::<u8>::empty() && f.pos() == 0 && disk(*path) is None,
+            disk(*path) is Some ==> r is Err,
+    { unimplemented!() }
+    #[verifier::external_body]
+    pub fn open(path: &Path) -> (r: Result<File, IoError>)
+        ensures
+            r matches Ok(f) ==> f.pos() == 0 && disk(*path) == Some(f.content()) && status_state(f.content()),
+            r matches Err(e) ==> (e.kind_spec() == ErrorKind::NotFound ==> disk(*path) is None),
+            r matches Err(e) ==> (e.kind_spec() != ErrorKind::NotFound ==> io_failure()),
+    { unimplemented!() }
     #[verifier::external_body]
     pub fn sync_all(&self) -> (r: Result<(), IoError>) { unimplemented!() }
     #[verifier::external_body]
